@@ -95,6 +95,30 @@ pub fn c08_native_determinism() {
         if g1 != g2 { panic!("grandchild generators must be deterministic") }
         cases += 1;
     }
+    // ---- the two evaluators compute the same thing on ANY population, including individuals that arrive already carrying a
+    //      (stale or placeholder) objective value: "regardless of whether evaluation is sequential or parallel"
+    {
+        use crate::{problems::Evaluate, Individual, SingleObjective};
+        let sp = whole_run_native::Sphere { returned: std::sync::Mutex::new(Vec::new()) };
+        for n in 0..=5usize {
+            for mask in 0..(1u32 << n) {
+                let make = || -> Vec<Individual<whole_run_native::Sphere>> { (0..n).map(|i| {
+                    let x = vec![i as f64, 0.5 * i as f64, -1.0];
+                    if mask >> i & 1 == 1 { Individual::new(x, SingleObjective::try_from(f64::INFINITY).unwrap()) } else { Individual::new_unevaluated(x) }
+                }).collect() };
+                let (mut a, mut b) = (make(), make());
+                let mut st: State<whole_run_native::Sphere> = State::new();
+                Sequential::<whole_run_native::Sphere>::new().evaluate(&sp, &mut st, &mut a);
+                Parallel::<whole_run_native::Sphere>::new().evaluate(&sp, &mut st, &mut b);
+                if a != b || b.iter().any(|i| i.objective().value() != whole_run_native::sphere(i.solution())) {
+                    eprintln!("COUNTEREXAMPLE evaluators: population of {n} with pre-evaluated mask {mask:b}: sequential gives {:?}, parallel gives {:?}",
+                              a.iter().map(|i| i.objective().value()).collect::<Vec<_>>(), b.iter().map(|i| i.get_objective().map(|o| o.value())).collect::<Vec<_>>());
+                    panic!("sequential and parallel evaluation differ");
+                }
+                cases += 1;
+            }
+        }
+    }
     // ---- whole runs of the shipped templates
     let sp = whole_run_native::Sphere { returned: std::sync::Mutex::new(Vec::new()) };
     for (name, c) in whole_run_native::real_templates(8) { cases += check_template(name, c, &sp, true); }
